@@ -57,7 +57,10 @@ func RecordLines(g int, noKey bool) []string {
 		fmt.Sprintf("+*.wild.example.com,%s,%d,,", ip(6), t),
 		fmt.Sprintf("+loc.example.com,%s,%d,,\\000\\002", ip(7), t),
 		fmt.Sprintf("+loc.example.com,%s,%d,,\\000\\003", ip(8), t),
-		fmt.Sprintf("+loc.example.com,%s,%d,,", ip(9), t),
+		fmt.Sprintf("+loc.example.com,%s,%d,,\\000\\001", ip(9), t),
+		fmt.Sprintf("+wrr.example.com,%s,%d,,,1", ip(21), t),
+		fmt.Sprintf("+wrr.example.com,%s,%d,,,2", ip(22), t),
+		fmt.Sprintf("+wrr.example.com,%s,%d,,,3", ip(23), t),
 	}
 	if !noKey {
 		l = append(l, fmt.Sprintf("+%s,%s,%d,,", ValidationName, ip(10), t))
@@ -95,29 +98,37 @@ func ValidationKey(v2 bool) []byte {
 
 // Q is one query shape.
 type Q struct {
-	Name string
-	Type uint16
+	Name  string
+	Type  uint16
+	Class uint16 // 0 = IN
 }
 
 // Queries is the fixed table of query shapes (all inside ordinary shapes, see DESIGN §8 C13).
 var Queries = []Q{
-	{"www.example.com.", dns.TypeA},        // positive
-	{"www.example.com.", dns.TypeAAAA},     // positive v6
-	{"example.com.", dns.TypeMX},           // answer + additional
-	{"example.com.", dns.TypeNS},           // answer + glue
-	{"example.com.", dns.TypeSOA},          // SOA
-	{"nothing.example.com.", dns.TypeA},    // NXDOMAIN + SOA
-	{"www.example.com.", dns.TypeTXT},      // NODATA + SOA
-	{"foo.sub.example.com.", dns.TypeA},    // referral: NS + glue
-	{"x.wild.example.com.", dns.TypeA},     // wildcard
-	{"www2.example.com.", dns.TypeA},       // CNAME
-	{"txt.example.com.", dns.TypeTXT},      // TXT
-	{"loc.example.com.", dns.TypeA},        // location dependent
-	{"outside.org.", dns.TypeA},            // REFUSED (no stamp)
-	{"WwW.ExAmPlE.CoM.", dns.TypeA},        // mixed case
-	{"example.com.", dns.TypeANY},          // ANY at apex
-	{"valid.example.com.", dns.TypeA},      // validation record
+	{"www.example.com.", dns.TypeA, 0},     // positive
+	{"www.example.com.", dns.TypeAAAA, 0},  // positive v6
+	{"example.com.", dns.TypeMX, 0},        // answer + additional
+	{"example.com.", dns.TypeNS, 0},        // answer + glue
+	{"example.com.", dns.TypeSOA, 0},       // SOA
+	{"nothing.example.com.", dns.TypeA, 0}, // NXDOMAIN + SOA
+	{"www.example.com.", dns.TypeTXT, 0},   // NODATA + SOA
+	{"foo.sub.example.com.", dns.TypeA, 0}, // referral: NS + glue
+	{"x.wild.example.com.", dns.TypeA, 0},  // wildcard
+	{"www2.example.com.", dns.TypeA, 0},    // CNAME
+	{"txt.example.com.", dns.TypeTXT, 0},   // TXT
+	{"loc.example.com.", dns.TypeA, 0},     // location dependent
+	{"outside.org.", dns.TypeA, 0},         // REFUSED (no stamp)
+	{"WwW.ExAmPlE.CoM.", dns.TypeA, 0},     // mixed case
+	{"example.com.", dns.TypeANY, 0},       // ANY at apex
+	{"valid.example.com.", dns.TypeA, 0},   // validation record
+	{"wrr.example.com.", dns.TypeA, 0},     // weighted: three candidates
+	{"www.example.com.", dns.TypeA, 1001},  // unusual class (answered like IN)
+	{"1www.example.com.", dns.TypeA, 100},  // NXDOMAIN; its cache key text collides with the previous entry's
+	{"mx.example.com.", dns.TypeAAAA, 0},   // positive v6
 }
+
+// Weighted tells whether the answer to query shape qi is subject to weighted selection.
+func Weighted(qi int) bool { return Queries[qi%len(Queries)].Name == "wrr.example.com." }
 
 // Clients is the fixed table of client addresses: default location, location 2, location 3, IPv6.
 var Clients = []string{"192.0.2.1", "10.1.2.3", "10.2.3.4", "2001:db8::1"}
@@ -170,6 +181,9 @@ func MakeQuery(qi int, edns bool, ecs string, id uint16) *dns.Msg {
 	q := Queries[qi%len(Queries)]
 	m := new(dns.Msg)
 	m.SetQuestion(q.Name, q.Type)
+	if q.Class != 0 {
+		m.Question[0].Qclass = q.Class
+	}
 	m.Id = id
 	if edns || ecs != "" {
 		o := new(dns.OPT)
